@@ -47,23 +47,46 @@ static const char *ordc_json(int ordered, int nc) {
 }
 static long nruns_total;
 
-/* one complete pool life cycle under the current scheduler configuration; returns the number of steps */
+/* one complete pool life cycle under the current scheduler configuration; returns the number of steps.
+ * conc_ = 0: the main thread dispatches for every client in turn (one caller thread).
+ * conc_ = 1: every client has its own caller thread (as in ThreadPool.tla: one caller process per client): clients 2.. run
+ *            in threads of their own, the main thread is client 1 and destroys the pool after joining them. */
+static int conc_;
+static struct threadpool *the_pool;
+static struct result_handler *the_rh[4];
+static void client_run(int c) {
+	for (int j = 1; j <= J_; j++) {
+		long id = (c + 1) * 100 + j;
+		fprintf(out, "{\"e\":\"Dispatch\",\"j\":%ld,\"c\":%d}\n", id, c + 1);
+		threadpool_dispatch(the_pool, the_rh[c], ord_of(ordered_, c), job, (void *)id);
+	}
+	result_handler_destroy(&the_rh[c]);
+	fprintf(out, "{\"e\":\"Closed\",\"c\":%d}\n", c + 1);
+}
+static void *client_thread(void *a) { client_run((int)(long)a); return NULL; }
 static int life_cycle(long r, unsigned long seed, int sp, bool systematic) {
 	cur_run = r;
-	fprintf(out, "{\"e\":\"Reset\",\"x\":%ld}\n{\"e\":\"Cfg\",\"max\":%d,\"jobs\":%d,\"ordered\":%d,\"ordc\":%s,\"clients\":%d,\"seed\":%lu}\n", r, P_, J_, ordered_, ordc_json(ordered_, NC_), NC_, seed);
+	fprintf(out, "{\"e\":\"Reset\",\"x\":%ld}\n{\"e\":\"Cfg\",\"max\":%d,\"jobs\":%d,\"ordered\":%d,\"ordc\":%s,\"clients\":%d,\"callers\":%d,\"seed\":%lu}\n", r, P_, J_, ordered_, ordc_json(ordered_, NC_), NC_, conc_ ? NC_ : 1, seed);
 	vs_begin(seed, systematic ? 0 : sp);
 	struct threadpool *pool = threadpool_init((size_t)P_);
-	struct result_handler *rh[4];
-	for (int c = 0; c < NC_; c++) rh[c] = result_handler_init(res_cb, (void *)(long)(c + 1));
-	for (int j = 1; j <= J_; j++)
+	the_pool = pool;
+	for (int c = 0; c < NC_; c++) the_rh[c] = result_handler_init(res_cb, (void *)(long)(c + 1));
+	if (conc_) {
+		pthread_t th[4];
+		for (int c = 1; c < NC_; c++) pthread_create(&th[c], NULL, client_thread, (void *)(long)c);
+		client_run(0);
+		for (int c = 1; c < NC_; c++) pthread_join(th[c], NULL);
+	} else {
+		for (int j = 1; j <= J_; j++)
+			for (int c = 0; c < NC_; c++) {
+				long id = (c + 1) * 100 + j;
+				fprintf(out, "{\"e\":\"Dispatch\",\"j\":%ld,\"c\":%d}\n", id, c + 1);
+				threadpool_dispatch(pool, the_rh[c], ord_of(ordered_, c), job, (void *)id);
+			}
 		for (int c = 0; c < NC_; c++) {
-			long id = (c + 1) * 100 + j;
-			fprintf(out, "{\"e\":\"Dispatch\",\"j\":%ld,\"c\":%d}\n", id, c + 1);
-			threadpool_dispatch(pool, rh[c], ord_of(ordered_, c), job, (void *)id);
+			result_handler_destroy(&the_rh[c]);
+			fprintf(out, "{\"e\":\"Closed\",\"c\":%d}\n", c + 1);
 		}
-	for (int c = 0; c < NC_; c++) {
-		result_handler_destroy(&rh[c]);
-		fprintf(out, "{\"e\":\"Closed\",\"c\":%d}\n", c + 1);
 	}
 	threadpool_destroy(&pool);
 	int steps = vs_end();
@@ -105,6 +128,7 @@ int main(int argc, char **argv) {
 		out = fopen(argv[1], "w");
 		P_ = atoi(argv[3]); J_ = atoi(argv[4]); ordered_ = atoi(argv[5]); NC_ = atoi(argv[6]);
 		int bound = atoi(argv[7]);
+		conc_ = argc > 8 ? atoi(argv[8]) : 0;
 		vs_on_deadlock = on_deadlock;
 		long st[8]; int ch[8];
 		for (int policy = 0; policy < 3; policy++) explore(0, bound > 2 ? 2 : bound, st, ch, policy, 0);
@@ -139,27 +163,11 @@ int main(int argc, char **argv) {
 	int sp = atoi(argv[8]), mode = atoi(argv[9]), npre = atoi(argv[10]);
 	vs_on_deadlock = on_deadlock;
 	(void)dummy;
+	P_ = P; J_ = J; ordered_ = ordered; NC_ = NC;
+	conc_ = argc > 11 ? atoi(argv[11]) : 0;
 	for (long r = 0; r < runs; r++) {
-		cur_run = r;
-		fprintf(out, "{\"e\":\"Reset\",\"x\":%ld}\n{\"e\":\"Cfg\",\"max\":%d,\"jobs\":%d,\"ordered\":%d,\"ordc\":%s,\"clients\":%d,\"seed\":%lu}\n", r, P, J, ordered, ordc_json(ordered, NC), NC, seed0 + (unsigned long)r);
 		vs_config(mode, 1, npre, 40 + 25L * J * NC, seed0 + (unsigned long)r);
-		vs_begin(seed0 + (unsigned long)r, sp);
-		struct threadpool *pool = threadpool_init((size_t)P);
-		struct result_handler *rh[4];
-		for (int c = 0; c < NC; c++) rh[c] = result_handler_init(res_cb, (void *)(long)(c + 1));
-		for (int j = 1; j <= J; j++)
-			for (int c = 0; c < NC; c++) {
-				long id = (c + 1) * 100 + j;
-				fprintf(out, "{\"e\":\"Dispatch\",\"j\":%ld,\"c\":%d}\n", id, c + 1);      /* submission = the call */
-				threadpool_dispatch(pool, rh[c], ord_of(ordered, c), job, (void *)id);
-			}
-		for (int c = 0; c < NC; c++) {
-			result_handler_destroy(&rh[c]);
-			fprintf(out, "{\"e\":\"Closed\",\"c\":%d}\n", c + 1);
-		}
-		threadpool_destroy(&pool);
-		int steps = vs_end();
-		fprintf(out, "{\"e\":\"PoolDestroyed\",\"maxlive\":%d,\"steps\":%d}\n", vs_max_threads_seen, steps);
+		life_cycle(r, seed0 + (unsigned long)r, sp, false);
 	}
 	fclose(out);
 	return 0;
